@@ -171,7 +171,10 @@ func TestJSONDecodeTotal(t *testing.T) {
 		ex := map[string]any{"document": string(doc), "kind": label}
 		for _, validate := range []bool{false, true} {
 			ex["validate"] = validate
-			var out serixgen.Outcome
+			out := c.JSONDecode(doc, validate) // warm-up of reflect / serix type caches, see TestDecodeTotalBounded
+			if out.Panic != nil {
+				violation(rt, check, c, ex, "JSONDecode panicked: %v", out.Panic)
+			}
 			alloc := measure(func() { out = c.JSONDecode(doc, validate) })
 			if out.Panic != nil {
 				violation(rt, check, c, ex, "JSONDecode panicked: %v", out.Panic)
